@@ -27,7 +27,7 @@ ASSUMPTIONS = [
     "the riscv:rvc relaxable j/jal classes is C13's subject, not compared here",
 ]
 TRUSTED = ["CPython", "Hypothesis", "llvm-mc 14 and GNU objdump (only to accept equivalent encodings)", "vf/isagen.py"]
-REGISTER = False
+REGISTER = True
 TECHNIQUE = "generated instruction instances of every ISA, print -> assemble round trip compared with direct emission"
 LEVEL_TEXT = (
     "Exploration: every instruction class with a syntax of all 15 target configurations is instantiated with "
